@@ -21,6 +21,10 @@ EXPECTED_CALLS = [
     "sendData: handleError pb.SyncResponse_ERROR",
     "sendData: Send pb.SyncResponse_META",
     "sendData: handleError pb.SyncResponse_FAULT",
+    "sendData: ioReader.Read",
+    "sendData: if id != reqSp.RunId",
+    "sendData: channel.RunId",
+    "sendData: handleError pb.SyncResponse_ERROR",
     "sendData: Send pb.SyncResponse_CONTINUE",
     "sendData: handleError pb.SyncResponse_FAULT",
     "sendData: Send pb.SyncResponse_CONTINUE",
@@ -33,6 +37,7 @@ EXPECTED_CALLS = [
     "Run: err = rf.rdbSync(followerSp, stream, resp)",
     "Run: followerSp, err = rf.channel.StartPoint([]string{leaderSp.RunId})",
     "Run: channel.StartPoint",
+    "Run: if !followerSp.IsInitial() && followerSp.RunId == leaderSp.RunId",
     "Run: state = 3",
     "Run: err = rf.aofSync(followerSp, stream, resp)",
     "Run: state = 1",
@@ -212,10 +217,26 @@ EXPECTED_RUNCLUSTER = [
     "ReplicaFollower.Run:   return err"
 ]
 
+# digests of the functions Model/ReplicaIdSrc.lean / Replica.lean transcribe for the run id of a channel, and of the
+# snapshot writer's commit (Loss.nocommit): a change means the model has to be re-read
+EXPECTED_IDSRC = {
+    "pkg/redis/psync.go:SendPSync": "28b263606d5a",
+    "pkg/redis/util.go:GetRunIds": "6c4ca3940df7",
+    "pkg/store/rdb_writer.go:closeRdb": "f39358bb8f8a",
+    "pkg/store/store.go:DelRunId": "185b1021ccc4",
+    "pkg/store/store.go:SetRunId": "b7248cd4986f",
+    "pkg/store/store.go:VerifyRunId": "a57cab4ebe39",
+    "pkg/store/store.go:newRunId": "8cd70f4f6865",
+    "syncer/memory_channel.go:DelRunId": "66935c951cff",
+    "syncer/memory_channel.go:SetRunId": "4cd198d856cc",
+}
+
 EXPECTED_CODES = ["CLEAR=3", "CONTINUE=1", "ERROR=11", "FAILURE=12", "FAULT=10", "HANDOVER=2", "META=0"]
 
 PROP = {
-    "lean_modules": ["GunYu.Props.C16", "GunYu.Props.C16Handover"],
+    "lean_modules": ["GunYu.Props.C16", "GunYu.Props.C16Handover", "GunYu.Props.C16Id", "GunYu.Props.C16Fault",
+                     "GunYu.Props.C16Reader", "GunYu.Props.C16Restart", "GunYu.Props.C16Promote", "GunYu.Props.C16Script",
+                     "GunYu.Props.C16PromoteNew"],
     "audit_namespaces": ["GunYu.Props.C16"],
     "required_theorems": [
         "GunYu.Props.C16.follower_prefix_of_leader",
@@ -250,10 +271,49 @@ PROP = {
         "GunYu.Props.C16.old_leader_back_if_lease_longer_than_pause",
         "GunYu.Props.C16.old_leader_back_if_restarted",
         "GunYu.Props.C16.memory_cache_lost_at_promotion",
+        # hq discharged: where the leader's channel run id comes from (Props/C16Id.lean)
+        "GunYu.Props.C16.leader_channel_id_never_q",
+        "GunYu.Props.C16.follower_prefix_of_leader_src",
+        "GunYu.Props.C16.input_sets_no_q",
+        "GunYu.Props.C16.getRunIds_from_line",
+        "GunYu.Props.C16.parsePsync_id",
+        "GunYu.Props.C16.q_source_is_adopted",
+        # the follower's own store fails (Props/C16Fault.lean)
+        "GunYu.Props.C16.write_fault_stream",
+        "GunYu.Props.C16.write_fault_stream_fresh",
+        "GunYu.Props.C16.write_fault_snapshot",
+        "GunYu.Props.C16.resumes_at_durable_end",
+        # an open stream reader serves its own id: composed with C05's model (Props/C16Reader.lean)
+        "GunYu.Props.C16.disk_open_reader_serves_own_id",
+        "GunYu.Props.C16.disk_reader_output_is_hseg",
+        "GunYu.Props.C16.leader_faithful_from_c05",
+        "GunYu.Props.C16.mem_reader_follows_relabel",
+        "GunYu.Props.C16.mem_checked_send_serves_own_id",
+        # restart from a crash image: composed with C08's reopen (Props/C16Restart.lean)
+        "GunYu.Props.C16.reopened_data_faithful",
+        "GunYu.Props.C16.follower_prefix_of_leader_crash_runs",
+        "GunYu.Props.C16.crash_image_step_ok",
+        "GunYu.Props.C16.crash_image_data_faithful",
+        # promotion: C16's conclusion gives C06's CacheWF / CacheOK (Props/C16Promote.lean)
+        "GunYu.Props.C16.promoted_cache_wf",
+        "GunYu.Props.C16.promoted_cache_ok",
+        "GunYu.Props.C16.promoted_follower_cache_ok",
+        "GunYu.Props.C16.promoted_follower_first_connection",
+        # review r4: compositions closed
+        "GunYu.Props.C16.disk_state_data_faithful",
+        "GunYu.Props.C16.leader_faithful_of_disk",
+        "GunYu.Props.C16.leader_faithful_from_mem_checked_send",
+        "GunYu.Props.C16.follower_prefix_of_c05_leader",
+        "GunYu.Props.C16.session_stream_payload_is_history",
+        "GunYu.Props.C16.stream_script_srcOk",
+        "GunYu.Props.C16.stream_transfer_crash_image_faithful",
+        "GunYu.Props.C16.promoted_new_storer_cache_ok",
     ],
     "expected_facts": {"c16_gap_threshold": 10485760, "c16_codes": EXPECTED_CODES, "c16_calls": EXPECTED_CALLS, "c16_cmd": EXPECTED_CMD,
-                       "c16_runcluster": EXPECTED_RUNCLUSTER},
+                       "c16_runcluster": EXPECTED_RUNCLUSTER, "c16_idsrc": EXPECTED_IDSRC},
     "harness": [{"name": "C16", "pkg": "./syncer/", "test": "TestVerifC16",
+                 "timeout_quick": "30m", "timeout_thorough": "60m"},
+                {"name": "C16ids", "pkg": "./syncer/", "test": "TestVerifC16Ids",
                  "timeout_quick": "30m", "timeout_thorough": "60m"},
                 {"name": "C16cmd", "pkg": "./cmd/", "test": "TestVerifC16Cmd",
                  "timeout_quick": "30m", "timeout_thorough": "60m"},
@@ -311,10 +371,47 @@ PROP = {
             "harness itself fails (a broken tie, not a verdict about the property); classes that did not occur in a run are evidence counters "
             "(class_not_generated_*); a quiescent cut is made when the follower's channel reports every sent byte as stored (explicit condition, 120 s "
             "hard limit; if the limit is hit the cut counts as abrupt). corpus/C16: defect witnesses and the boundary states. "
-            "distinct_nontrivial = distinct (backend, relation, outcome, #messages, leader shape, static?) with at least two CONTINUE chunks",
+            "distinct_nontrivial = distinct (backend, relation, outcome, #messages, leader shape, static?) with at least two CONTINUE chunks. "
+            "Session 4 additions. (a) round extra rl=<k>: after k CONTINUE messages of a STREAM transfer the leader's input does what "
+            "syncer/input.go does at a PSYNC2 fail-over answered +CONTINUE <new id> — setRunIds, channel.SetRunId(new id), a new stream writer "
+            "at the same offset, the new master's bytes — while the handler's stream reader is open; what still gets out and how the handler "
+            "ends (FAULT / clean / ERROR from the id check) is observed and passed to the model as the leader's `halt`. (b) faults of the "
+            "FOLLOWER's own store (disk): the follower's channel is wrapped so that the io.Reader every snapshot / stream writer ingests from "
+            "acts between two file writes: wf=<K> closes the writer's file descriptor when K payload bytes are on the file and the next byte "
+            "is about to be written (pkg/store shim VerifBreakFile: EBADF stands for EIO/ENOSPC; K anywhere in the first transfer, half of "
+            "them inside its last 8 KiB, also for followers whose first transfer is the snapshot), wr=1 unlinks the temporary snapshot file "
+            "while its last piece is on the way (every write succeeds, the commit rename fails); uncut transport; the session's outcome is "
+            "`wfail` when the fault was injected and a byte followed. Compared with the model: messages, outcome, store (files + API). "
+            "(c) cr=<K>: when a writer of the PREVIOUS session had K payload bytes on its file the follower's directory tree is copied "
+            "(the image a kill at that instant leaves: torn last segment with an unclosed header, a .rdb.tmp); before this session the "
+            "follower is stopped, the directory replaced by that image, a new Storer + a new Run started over it; one `reopen` op per run-id "
+            "directory of the image compares what a fresh real StoreChannel serves for it with Model/ReplicaReopen.lean dataOfReopened "
+            "(over C08's reopen), the session that follows is an ordinary `sess` op from that store. Monitors added: reopened-not-readable; "
+            "resume-beyond-durable (every session: the follower's first data request asks for the end of its own copy of that id or for the "
+            "offset the leader announced — read on the wire at the server); the API-vs-files comparison after every session now also "
+            "follows faults and crash restarts. Fourth harness C16ids: the REAL redis.GetRunIds and (*StandaloneRedis).SendPSync over "
+            "loopback TCP against a RESP double answering INFO replication / PSYNC with generated texts (keys missing / duplicated / "
+            "reordered / prefixed / wrong case, LF instead of CRLF; ids of 40 hex digits, shorter, '?', empty; CONTINUE with and without "
+            "id, FULLRESYNC id offset, empty id field, bad offsets, extra fields, other replies): ops ids / psy compared with "
+            "Model/ReplicaIdSrc.lean getRunIds / parsePsync; (after review r4) round extra rr=1: the same fail-over at a read point "
+            "INSIDE sendData's loop — the leader's stream reader is wrapped, and when it has handed over the old id's last byte and the next "
+            "ioReader.Read is entered the input relabels and appends, so that very read returns the new master's bytes (read -> check -> "
+            "Send drops them, check -> read -> Send leaks them: the reviewer's mutation now gives a follower-bytes-differ replay, and "
+            "ioReader.Read is part of c16_calls); ws=<K>: a pipe is dup2'ed over the snapshot writer's descriptor after K bytes (shim "
+            "VerifLoseSync: further writes vanish, fsync at the commit fails); op lsend (memory, every rl/rr round): the observed reads of "
+            "the request + the fail-over are run through Props/C16Reader.lean LState.run over C05's Mem model, `sent`/`stopped` compared "
+            "with what the real sendData sent; op cache (after every session, both backends): C06's Cache.getRdb / getOffsetRange / latest "
+            "of Props/C16Promote.lean cacheOfData of the store against the real Channel.GetRdb / GetOffsetRange / StartPoint(nil); "
+            "monitors id-not-from-source and source-id-misread (a reference reading of the same "
+            "texts written in Go, independent of the Lean model)",
     "trusted": ["grpc-go on loopback TCP between the real Run and the real ServiceReplica (no fake transport); the harness's stream wrapper, "
                 "WaitCloser/Logger wrappers of the follower and Input/Channel wrappers of the leader",
                 "history oracle of the harness (two run ids differ at every offset) and its file parser for the disk backend",
+                "the fault injection under the follower: the reader wrapper of the harness (acts between two writes of ingest()), the pkg/store "
+                "shims VerifBreakFile (closes the writer's descriptor: the next write returns EBADF with n = 0 — a SHORT write, n > 0 with an "
+                "error, is not injected here; C08 does it with RLIMIT_FSIZE in a child process) and VerifLoseRdbTmp (unlink: rename fails with "
+                "ENOENT); the directory copy taken between two writes as the image of a kill (no torn write inside one write call: C08's crash "
+                "images cover those); C16ids: the RESP double and the harness's reference reading of INFO / PSYNC texts",
                 "C16ho: the lease double (semantics of pkg/cluster/redis's election scripts: one key, value = the instance's peer address, TTL; "
                 "not etcd's), the replication-source double (INFO/ROLE/REPLCONF/PSYNC with FULLRESYNC and CONTINUE), pkg/vfdoubles.Target behind "
                 "a loopback listener, the goroutine profile with pprof labels as the observation of 'leader syncer running'"],
@@ -323,12 +420,44 @@ PROP = {
                     "ReplicaFollower method, Run's state assignments and ServiceReplica's gate (a change means the model has to be re-read)",
                     "model tied by correspondence (hand-written transcription of syncer/replica.go, syncer_replica.go, channel.go, pkg/store "
                     "SetRunId/DelRunId/VerifyRunId, memory_channel.go StartPoint/SetRunId/DelRunId)",
-                    "the cache a leader's reader is opened on is a faithful copy of the source's history of the channel's run id (C05/C06/C08); the "
-                    "leader may change between and inside requests (four read points per request), but a stream reader that is already open is "
-                    "modelled as serving its own run id to the end (plus the tail appended meanwhile, or stopped with the leader): that an id "
-                    "switch of the channel closes what is open on the old index is C05's (fixed in /repo 2df2ed4; memory backend 8590cdd)",
-                    "hypothesis hq of the theorems, not discharged: the leader's channel run id is never the literal \"?\" (the input sets it from "
-                    "the source's 40-hex replication id)",
+                    "the cache a leader's reader is opened on is a faithful copy of the source's history of the channel's run id (C05/C06/C08) — "
+                    "still a hypothesis (hL / LabelledOk: in every state in which the channel is labelled x it holds x's history). What is NO "
+                    "LONGER assumed: that a stream reader that is already open serves its own run id to the end. Disk: derived from C05's model "
+                    "(Props/C16Reader.lean disk_open_reader_serves_own_id: for ANY operations of the leader's input after the open — appends, "
+                    "rotation, collection, writer replacement, id switch / delete, new snapshot — everything the reader delivers is history x "
+                    "from its offset and it is open only while the label is x; leader_faithful_from_c05 turns that into Leader.Faithful). "
+                    "Memory: C05's model does NOT close readers on SetRunId (mem_reader_follows_relabel; confirmed on the real MemoryChannel, "
+                    "defect fixed in /repo 6317a42): the property holds through the id check sendData makes after every read "
+                    "(mem_checked_send_serves_own_id, over C05's Mem model, under NoReturn: a label that was left does not come back — "
+                    "replication ids are fresh random values). The composition is at the level of C05's operation lists; that the Leader record "
+                    "of a `sess` op (data, tail, halt) is what such a run shows is the harness's construction, not a theorem",
+                    "hq (the leader's channel run id is never the literal \"?\") is discharged for a DISK leader unconditionally "
+                    "(leader_channel_id_never_q: newRunId ignores \"\"/\"?\", DelRunId leaves \"\"; follower_prefix_of_leader_src) and for a MEMORY leader "
+                    "under the hypothesis that the source never reports \"?\" as master_replid or in its PSYNC reply (input_sets_no_q; Redis "
+                    "generates 40 hex digits: replid_ne_q). A source that answers +FULLRESYNC ? 5 makes a memory leader announce \"?\" "
+                    "(q_source_is_adopted): outside the property, not repaired. Model/ReplicaIdSrc.lean is a hand-written transcription of "
+                    "GetRunIds / SendPSync's reply parsing / syncMeta's choice of the id, tied by the C16ids correspondence (ASCII texts; "
+                    "strings.ToLower's Unicode path not generated) and by the digests c16_idsrc; ChanOp (what the input does to the channel's id) "
+                    "is not executed by a harness of its own — its three operations are the store functions the `sess` ops already exercise on "
+                    "the follower side, and C06's harness runs the real syncMeta",
+                    "write faults of the follower's store: Loss.wfault = K means EVERY writer of the session fails after K payload bytes; the "
+                    "harness injects the fault into every writer of the session with its own count, uncut transport only (with an abrupt cut in "
+                    "the snapshot stage the bytes a writer was handed are not observable). The error is EBADF with n = 0; a short write is "
+                    "C08's. The stream writer's file keeps an unclosed header after the fault (readable without CRC verification, as after a "
+                    "crash: C08). Loss.nocommit models the repaired order (rename before the index is told; /repo 679f548)",
+                    "restart from a crash image: Props/C16Restart.lean takes per directory an ARBITRARY image with the hypothesis ImageOk "
+                    "(C08's FsTrue against history id + the offered snapshot file is history's snapshot); crash_image_step_ok discharges it for "
+                    "every crash image of every writers' script (C08: crash_images_truthful, script_ops_true, crash_snapshot_true) plus the "
+                    "explicit link SnapRecvOk (what the follower's snapshot writer RECEIVED completely is history's snapshot: C16's Shape.rdb / "
+                    "rdbLoop_complete_eq say this of the session model; the writers' script and the session are two models of the same run, "
+                    "tied by the harness, not by a theorem). The crash step does not relate the images to the store before the crash "
+                    "(stronger: any truthful images). Harness images are taken between two writes",
+                    "promotion: promoted_follower_cache_ok gives C06's CacheOK for ANY source and CacheWF under two side conditions on what is "
+                    "held — offsets within int64 and a non-empty snapshot (from the history: promoted_cache_wf_of_hist) — as C08's bridge; "
+                    "Agrees (C06's World and C16's Hist are the same histories, stream bytes) is an interface assumption between the two "
+                    "models; C06's Holds constrains a snapshot only through its token (history, offset), so snapshot CONTENT faithfulness is "
+                    "C16's alone. Memory followers lose the cache at promotion (memory_cache_lost_at_promotion): the bridge is then about the "
+                    "empty cache",
                     "consequence of the D16 repair, intended: after a PSYNC2 fail-over of the source the LEADER relabels its cache (its histories "
                     "join) while every follower deletes its whole copy and restarts at the leader's newest offset without a snapshot; a follower "
                     "promoted soon afterwards holds a cache that starts after the target's resume position (a full sync there), and HANDOVER is "
@@ -346,7 +475,9 @@ PROP = {
                     "messages the follower does not read (after the first message of a handshake, after a non-META first answer — e.g. what Handle "
                     "goes on sending after selfInspection's CLEAR) are not part of the compared trace",
                     "model of the repaired behaviour: D16 (preSync relabelling), CLEAR answer taken as snapshot announcement, reader of another run id "
-                    "streamed by sendData (all three fixed in /repo), D14 (C05)",
+                    "streamed by sendData, the id check after every read of sendData's loop (6317a42), the snapshot announced only after its commit and "
+                    "Run not going on with nothing held (679f548), sync + close + rename all needed for a commit and the commit error returned by "
+                    "RdbWriter.Wait (45f65ae), Storer.SetRunId ignoring \"\"/\"?\" (02e084c, another owner's) (all fixed in /repo), D14 (C05)",
                     "runCluster model (Model/Handover.lean): hand-written transcription of cmd/syncer.go runCluster / clusterTicker, syncer.run's "
                     "deferred channel.Close, NewSyncer's new channel, ReplicaFollower.Run's pause before a role error; pinned by the source fact "
                     "c16_runcluster (every statement of the loop that moves the role, creates/stops a syncer, calls the election or pauses; the "
@@ -382,7 +513,36 @@ PROP = {
                     "not generated: the follower's own Stop() in the middle of a transfer; back-pressure of the follower's pipe is not forced "
                     "(transfers above the pipe size are generated, but the real writers drain it quickly); the syncer's channel shared between the "
                     "follower and leader roles of one process (runFollower/RunLeader on one channel object) — the harness owns one channel per role"],
-    "partial": [],
+    "partial": ["theorems that restate one unfolding of a model function (their content is the harness tie, not the proof): write_fault_stream, "
+                "write_fault_stream_fresh (aofRecv / Loss.written), resumes_at_durable_end (= preSync_pos; about preSync's answer, the request "
+                "of the NEXT session is the monitor resume-beyond-durable), and in C16Handover resign_after_stop, resign_frees, campaign_outcome, "
+                "offered_becomes_leader, old_leader_waits_out_its_lease, silent_until_campaign_won (one simp [step] each)",
+                "composition with C05, what is still assumed: Disk.wf of the whole operation list (input.go's caller protocol) and LabelledOk / "
+                "MemLabelledOk (in states labelled x the written history is x's: C06's subject, assumed, not imported from C06); stream readers "
+                "only; every request of a session gets its own C05 run (existential per request in LeaderFromC05, the runs are not chained); "
+                "disk: cache AND tail derived (leader_faithful_of_disk; the snapshot's content has no ghost in C05's model: hypothesis hsn); "
+                "memory: tail derived under NoReturn, the cache part d.Faithful stays a hypothesis; a same-id FULLRESYNC (DelRunId x; SetRunId x) "
+                "is outside NoReturn (the reader ends by EOF there)",
+                "composition with C08: for a STREAM transfer into a fresh directory nothing is assumed any more "
+                "(stream_transfer_crash_image_faithful: wf, SrcOk, SnapRecvOk of the induced script proved, SrcOk from C16's own "
+                "session_stream_payload_is_history); for SNAPSHOT transfers SnapRecvOk stays a hypothesis; crash scripts start from the EMPTY "
+                "directory (Disk.init, crashImage []): a kill in a second process lifetime (writers on a re-opened, non-empty directory) is an "
+                "instance only through the arbitrary-image theorem reopened_data_faithful + ImageOk, not through C08's script theorems; the "
+                "crash step's images are not related to the store before the crash",
+                "promotion bridge: the memory case is void (memory_cache_lost_at_promotion: the promoted syncer gets a new empty channel); disk: "
+                "promoted_new_storer_cache_ok starts from the new Storer (cur = \"\" + VerifyRunId(ids)) over StepC lives; Holds.rdb_tok is true "
+                "by construction of cdataOfData (C06 constrains a snapshot only through its token); Agrees is an interface assumption",
+                "`halt` (k, ending) of stop / rl / rr rounds is an OBSERVED model input: the differential accepts any k; that no chunk of another "
+                "history leaks rests on the bytes monitor + history oracle and on the lsend op (memory)",
+                "the composition with C05 (open reader serves its own id) and with C08 (crash images) is proved over THEIR operation-list / "
+                "directory-image models; the identification of a `sess` op's Leader record / of a crash round's image with such a run is the "
+                "harness's construction (correspondence), not a refinement theorem between the two models",
+                "SnapRecvOk (what the follower's snapshot writer received completely is the history's snapshot) links C16's session model to "
+                "C08's writers' script: stated as a hypothesis of crash_image_step_ok",
+                "hq for a memory leader rests on the source never reporting \"?\" (a hostile / broken source is outside the property)",
+                "a short write (n > 0 together with an error) under the follower is not injected by C16 (C08 does); the follower's own Stop() in "
+                "the middle of a transfer and the channel object shared between the follower and leader roles of one process remain "
+                "not generated"],
 }
 
 MANIFEST = {
@@ -400,8 +560,16 @@ MANIFEST = {
             "a campaign, and after a hand-over not before its old key has expired (lease <= the 10 s pause); the offered follower leads after "
             "2 s + 1 s with exactly the cache it held (disk), unless the key is somebody else's — then that one leads alone —, or earlier "
             "through its ticker; decide-checked counter-witnesses for each hypothesis. Tied by source facts and by running the real "
-            "runCluster of two instances through complete hand-overs (Resign ok / failing / lease longer than the pause) against the model.",
+            "runCluster of two instances through complete hand-overs (Resign ok / failing / lease longer than the pause) against the model. "
+            "Session 4: the hypothesis that an open reader serves its own run id is derived from C05's cache model (disk: any operations of the "
+            "leader's input; memory: through sendData's id check after every read, a defect found and fixed); hq is discharged (disk leader "
+            "unconditionally, memory leader unless the source itself says '?') over a model of GetRunIds / SendPSync tied to the real functions; "
+            "failing file writes and a failing commit of the follower's own store (any fault point: exactly the written bytes are kept, no "
+            "snapshot is kept or announced, the next session resumes at the durable end), restarts from crash images (C08's reopen imported), "
+            "and the bridge to C06 (a promoted follower's cache satisfies CacheWF / CacheOK) are theorems, tied by fault injection under the real "
+            "Run, by killing and restarting the real follower on frozen directory images, and by monitors on the wire.",
     "note": "trusted: Lean kernel (propext, Classical.choice, Quot.sound only), grpc-go, harness wrappers and oracle; model hand-written "
-            "(correspondence); a leader's cache assumed faithful to its channel id, open readers assumed to serve their own id (C05)",
+            "(correspondence); a leader's cache assumed faithful to its channel id (C05/C06/C08); C05's and C08's models imported for open readers "
+            "and crash images",
     "technique": "Lean 4 proof (invariant over the session function, induction on metaSync rounds and on step lists, progress by evaluation; lease invariant over the runCluster machine) + differential correspondence + monitors",
 }
